@@ -93,7 +93,7 @@ class LuceneCheck:
 
     def check_fuzzy(self, item, parents):
         if sign(item.degree) < 0:
-            yield "invalid degree %d, it must be positive" % item.degree
+            yield "invalid degree %s, it must be positive" % item.degree
         if not isinstance(item.term, tree.Word):
             yield "Fuzzy should be on a single term in %s" % str(item)
 
